@@ -172,6 +172,19 @@ def r3_no_overwrite(ctx, cb, rule='C03-R3'):
             if fe and b.edges_dominate(fe, r.bb):
                 stop = True
     for (ins, ec) in cb.ev_inserts:
+        # every pending eventually property gets its counterexample at this terminal state: after an insert the
+        # property loop goes on (no way out of the loop body that does not pass through its head)
+        heads = [c for c in cb.prop_next if b.dominates(c.bb, ins.bb) and b.in_cycle(c.bb)]
+        if heads and ins.target is not None:
+            head = max(heads, key=lambda c: len([1 for x in heads if b.dominates(x.bb, c.bb)]))
+            after = b.reach([ins.target], cut_blocks=[head.bb])
+            left = any(x in after for x in b.returns) or \
+                any(x != head.bb and b.dominates(x, head.bb) for x in after)
+            ctx.check(not left, rule, 'terminal-loop-continues-after-insert', b,
+                      good='after recording one property the terminal loop goes on to the next',
+                      bad='%s: the terminal-state loop stops after the first eventually property it records: other '
+                          'properties falsified by the same path get no counterexample (and have none elsewhere if '
+                          'this is their only falsifying path)' % cb.strat, span=ins.span)
         if not stop:
             ctx.ok(rule, 'eventually-insert', b, 'bits are maintained unconditionally', span=ins.span)
             continue
@@ -225,6 +238,15 @@ def r4_sim_end(ctx, F, rule='C03-R4'):
         cut += b.branch(c, True)
     for (c, new, seen) in cb.arb:
         cut += seen
+    # the recorded path ends WITH the state that closes the cycle: this state's fingerprint is appended to the path
+    # before the revisit test that can leave the loop towards the eventually tail
+    push, fpcall, path_local = sim_path_local(cb)
+    okp = bool(cb.arb) and all(b.dominates(push.bb, c.bb) for (c, new, seen) in cb.arb)
+    ctx.check(okp, rule, 'cycle-closing-state-is-on-the-path', b,
+              good='the current state is appended to the path before the revisit test',
+              bad='SIM: the revisit test can leave the trace loop before the current state was appended to the path: a '
+                  'recorded counterexample that ends in a cycle lacks the state that closes it - its last state has an '
+                  'in-boundary successor and repeats nothing, so it is not a witness', span=push.span)
     for (ins, ec) in cb.ev_inserts:
         r = b.reach([0], cut_edges=cut)
         ok = ins.bb not in r
